@@ -55,7 +55,7 @@ def run_shape(shape):
         meta = [(m.call_fn(api.meta[k], [ta]), m.call_fn(api.meta[k], [tb])) for k in ('delay', 'duration', 'repeat', 'cycle_duration')]
         return (m.load(ga), m.load(gb), meta)
 
-    rs = m.explore(h)
+    rs = m.explore(h, time_budget=150)
     res = new_result(shape)
     from mirsym.models import eq_values
     for r in rs:
@@ -92,7 +92,8 @@ def run_shape(shape):
 
 def confirm(check, r):
     subject, N, pres, eas, perm = r['shape']
-    mv = r['sat'][0]
+    mv = next((x for x in r['sat'] if x), None)
+    if mv is None: return False
     fields = SUBJECT_FIELDS[subject]
     kfs = [{'pos': '%08x' % mv[f'p{i}'], 'vals': [('%x' % mv[f'v{i}_{n}']) if pres[i][k] else 'none' for k, (n, ty) in enumerate(fields)],
             'easing': ('tag%d' % (i + 1)) if eas[i] else 'none'} for i in range(N)]
@@ -114,11 +115,15 @@ def main(tier):
     check = Check('C11', tier, 'proof')
     shapes = shapes_for(tier)
     results = run_shapes(check, run_shape, shapes)
-    done = set()
+    # (witnesses over uninterpreted lerp/easing need not be visible with the real kernels: several shapes are tried)
+    tried = 0
     for r in results:
-        if r['sat'] and (r['shape'][0], r['shape'][1]) not in done:
-            done.add((r['shape'][0], r['shape'][1]))
+        if len(check.violations) >= 2 or tried >= 40: break
+        if r['sat'] and any(r['sat']):
+            tried += 1
             confirm(check, r)
+    if check.violations:
+        check.inconclusive = [x for x in check.inconclusive if 'did not reproduce' not in x]
     check.assumptions += ['pairwise distinct keyframe positions in [0,1] (premise of the property); valid timing',
                           'time scale abstracted by L-pos (C03); lerp / easing uninterpreted']
     check.info['bounds'] = 'N <= %d keyframes, all non-identity insertion orders; S1 (f32), S2 (f32,u8)' % (3 if tier == 'quick' else 4)
